@@ -76,6 +76,7 @@ func (s *Schema) directiveFromDef(d *ast.DirectiveDefinition) Directive {
 			description:  arg.Description,
 			DefaultValue: defaultValue(arg.DefaultValue),
 			Type:         WrapTypeFromType(s.schema, arg.Type),
+			deprecation:  arg.Directives.ForName("deprecated"),
 		}
 	}
 
